@@ -186,6 +186,31 @@ void sweep_case_body(unsigned maxlen, int pairs) {
             if (r.failed()) { note_fail(c, r); RC_FAIL(r.msg); }
         }
     }
+    if (pairs < 0) {
+        // FULL 2-preemption enumeration: for every first preemption (i,a) learn the decisions that follow it and
+        // enumerate every second preemption (j > i, b)
+        for (uint32_t i = 0; i < lim; i++) {
+            for (int a = 1; a < std::max<int>(alts[i], 2); a++) {
+                if (stop_requested()) return;
+                Case c1; c1.prog = prog; c1.sched.assign(i + 1, 0); c1.sched[i] = (uint8_t)a;
+                Result r1 = run_checked(c1);
+                agg.add(c1, r1);
+                if (r1.failed()) { note_fail(c1, r1); RC_FAIL(r1.msg); }
+                if (r1.status != Result::OK) continue;
+                uint32_t lim2 = std::min<uint32_t>(r1.sh.stats.decisions, vrt::MAX_DEC);
+                std::vector<uint8_t> alts2(r1.sh.stats.dec_alts, r1.sh.stats.dec_alts + lim2);
+                for (uint32_t j = i + 1; j < lim2; j++) {
+                    for (int b = 1; b < std::max<int>(alts2[j], 2); b++) {
+                        Case c; c.prog = prog; c.sched.assign(j + 1, 0); c.sched[i] = (uint8_t)a; c.sched[j] = (uint8_t)b;
+                        Result r = run_checked(c);
+                        agg.add(c, r);
+                        if (r.failed()) { note_fail(c, r); RC_FAIL(r.msg); }
+                    }
+                }
+            }
+        }
+        return;
+    }
     for (int k = 0; k < pairs && lim > 1; k++) {
         int f1 = *rc::gen::resize(100, rc::gen::inRange<int>(0, 65536));
         int f2 = *rc::gen::resize(100, rc::gen::inRange<int>(0, 65536));
